@@ -235,6 +235,7 @@ class Sched(object):
         self.state_fn = state_fn
         self.on_point = None            # callback(Point) -> "cut" or None
         self.on_resume = None           # callback(thread index) after a point
+        self.chooser = None             # external driver of every choice
         self.fast_prefix = False        # skip bookkeeping while replaying
         self.visit_bound = None         # max switch points per code location
         self.locks = []
@@ -300,6 +301,14 @@ class Sched(object):
         order = self._order(cur if cur_enabled else None, en)
         if not order:
             return None
+        if self.chooser is not None:
+            # externally driven execution (conformance replay of model paths)
+            t = self.chooser(self, cur, order, label, cur_enabled)
+            if t == "cut":
+                self.cut = True
+                self._abort_all()
+                raise Abort()
+            return t
         if len(order) == 1:
             return order[0]           # no choice: not recorded
         p = Point(cur, order, label, cur_enabled and cur in en)
@@ -538,6 +547,8 @@ class Sched(object):
     def _choose_initial(self):
         en = self.enabled_set()
         order = list(en)
+        if self.chooser is not None:
+            return self.chooser(self, None, order, ("start",), False)
         p = Point(None, order, ("start",), False)
         i = len(self.points)
         if i < len(self.prefix):
